@@ -267,6 +267,15 @@ class ArityMismatchError(Exception):
         super().__init__(message)
 
 
+def _own_surrogate[T: SurrogateProtocol](surrogate: T) -> T:
+    """Copy of a surrogate whose wiring (args, outputs, stoichiometries) can be changed on its own."""
+    own = copy.copy(surrogate)
+    own.args = list(surrogate.args)
+    own.outputs = list(surrogate.outputs)
+    own.stoichiometries = {k: dict(v) for k, v in surrogate.stoichiometries.items()}
+    return own
+
+
 def _invalidate_cache(method: Callable[Param, RetType]) -> Callable[Param, RetType]:
     """Decorator that invalidates model cache when decorated method is called.
 
@@ -1870,13 +1879,17 @@ class Model:
             self._ids = old_ids
             raise
 
+        # The model keeps its own wiring: the passed object may be part of another
+        # model (or of this one under another name) and stays as it is
+        surrogate = _own_surrogate(surrogate)
+
         # Update surrogate if necessary
         if args is not None:
-            surrogate.args = args
+            surrogate.args = list(args)
         if outputs is not None:
-            surrogate.outputs = outputs
+            surrogate.outputs = list(outputs)
         if stoichiometries is not None:
-            surrogate.stoichiometries = stoichiometries
+            surrogate.stoichiometries = {k: dict(v) for k, v in stoichiometries.items()}
 
         self._surrogates[name] = surrogate
         return self
@@ -1926,13 +1939,17 @@ class Model:
             self._ids = old_ids
             raise
 
+        # A passed surrogate is stored as the model's own copy, see add_surrogate
+        if surrogate is not self._surrogates[name]:
+            surrogate = _own_surrogate(surrogate)
+
         # Update existing / passed surrogate (other args always take precendece)
         if args is not None:
-            surrogate.args = args
+            surrogate.args = list(args)
         if outputs is not None:
-            surrogate.outputs = outputs
+            surrogate.outputs = list(outputs)
         if stoichiometries is not None:
-            surrogate.stoichiometries = stoichiometries
+            surrogate.stoichiometries = {k: dict(v) for k, v in stoichiometries.items()}
 
         self._surrogates[name] = surrogate
         return self
